@@ -149,11 +149,11 @@ def run(tier, replay=None):
     corpus, sv = V.load_model()
     known = known_classes()
     avoid = set(known)
-    n_prog = 40 if tier == 'quick' else 240
+    n_prog = 70 if tier == 'quick' else 320
     batches = 1 if tier == 'quick' else 4
     binary = gen.build_generator()
     for batch in range(batches):
-        hosts = choose_hosts(corpus, n_prog // batches + len(randprog.PROBES), rng)
+        hosts = choose_hosts(corpus, n_prog // batches + len(randprog.PROBES) + (48 if batch == 0 else 0), rng)
         placed = []
         hi = 0
         for cls, mk in randprog.PROBES.items():
@@ -163,6 +163,11 @@ def run(tier, replay=None):
             prog['classes'] = [cls]
             prog['probe'] = cls
             placed.append(host + (prog,))
+        if batch == 0 and not replay:
+            sysprogs = randprog.systematic_programs(lambda i: 'Vs' + letters(i))
+            for prog in sysprogs:
+                placed.append(hosts[hi] + (prog,))
+                hi += 1
         for k, host in enumerate(hosts[hi:]):
             prog = randprog.make_program('Vr' + letters(batch) + letters(k), f'{common.seed()}:{batch}:{k}', avoid=avoid)
             placed.append(host + (prog,))
@@ -231,7 +236,7 @@ def run_batch(chk, corpus, binary, placed, batch):
                 if (c.name, env.version) not in names:
                     continue
                 try:
-                    for klass, vals in canon.vectors_for(cdc, c, common.seed(), 6 if chk.tier == 'quick' else 24):
+                    for klass, vals in canon.vectors_for(cdc, c, common.seed(), 6 if chk.tier == 'quick' else 24, extremes=True):
                         body, fmap, sig, payloads = cdc.encode(c, vals)
                         for d in cdc.directions(c):
                             try:
